@@ -717,15 +717,29 @@ def rule_budget_loops(F, R, fns):
                 if kind is None and c["k"] == "bin" and c["op"] in ("<", "<=", ">", ">="):
                     # integer counter changed exactly once per iteration against a loop-invariant bound
                     a, b = c["c"]
+
+                    def towards(step, cnt_is_left):
+                        """the single step moves the counter towards the bound"""
+                        up = incdec(step)[1] == "++"
+                        less = c["op"] in ("<", "<=")
+                        return up == (less == cnt_is_left)
                     for cnt, bound in ((a, b), (b, a)):
                         d = ref_decl(cnt)
                         if d is None:
+                            # a counter held in a member of a parameter object (params.m_max_iterations): identified by its access path
+                            ct = skip(cnt)
+                            if ct is not None and ct["k"] == "mem" and ct.get("fd") and skip(ct["c"][0])["k"] == "ref" and is_literal(bound):
+                                path = pp(ct)
+                                writes = [x for x in walk(lp) if (incdec(x) and pp(incdec(x)[0]) == path) or (assignment(x) and pp(assignment(x)[0]) == path)]
+                                steps = [x for x in writes if incdec(x)]
+                                if len(writes) == 1 and len(steps) == 1 and towards(steps[0], cnt is a):
+                                    kind = "counter"
                             continue
                         writes = [x for x in walk(lp) if (incdec(x) and ref_decl(incdec(x)[0]) == d) or (assignment(x) and ref_decl(assignment(x)[0]) == d)]
                         steps = [x for x in writes if incdec(x)]
                         bd_refs = {y["d"] for y in walk(bound) if y["k"] == "ref" and y.get("dk") in ("var", "parm", "bind")}
                         bound_written = any((assignment(x) and ref_decl(assignment(x)[0]) in bd_refs) or (incdec(x) and ref_decl(incdec(x)[0]) in bd_refs) for x in walk(lp))
-                        if len(writes) == 1 and len(steps) == 1 and not bound_written:
+                        if len(writes) == 1 and len(steps) == 1 and not bound_written and towards(steps[0], cnt is a):
                             kind = "counter"
             if kind == "budget":
                 nb += 1
